@@ -25,13 +25,37 @@ package rsyncwire
 //@ func (*rsyncwire.Conn).WriteString
 //@   modifies rsyncwire.CountingWriter.BytesWritten
 
-// C17: a frame's payload never exceeds maxMessageSize, and Read is only
-// ever handed a buffer of at least that size (the caller obligation sits on
-// bufio.NewReaderSize in externals.spec, tag mux-buffer).
-//@ func (*rsyncwire.MultiplexReader).ReadMsg
-//@   modifies rsyncwire.CountingReader.BytesRead
-//@   ensures [frame-limit] err == nil ==> len(p) <= 262144
+// ---------------------------------------------------------------- C17: multiplex framing
+// A frame is the little-endian word (7+tag)<<24 | len followed by len payload
+// bytes; len < 2^24, and this implementation never sends or accepts more
+// than maxMessageSize = 262144 payload bytes.
+//@ ghost frameTag: int
+//@ ghost frameLen: int
+//@ lemma header-roundtrip: forall t: int, n: int :: 0 <= t && t <= 2 && 0 <= n && n < 16777216 ==> wrap8u(div((7 + t) * 16777216 + n, 16777216) - 7) == t && mod((7 + t) * 16777216 + n, 16777216) == n
 
+//@ func (*rsyncwire.MultiplexWriter).WriteMsg
+//@   requires[C17] [frame-limit] tag <= 2 && len(p) <= 262144
+//@   modifies rsyncwire.CountingWriter.BytesWritten, ghost.acc
+//@   at[C17] encoding/binary.Write: assert [header-encoding] data(arg2) == (7 + tag) * 16777216 + len(p)
+//@   ensures[C17] [header-then-payload] err == nil ==> select(ghost.acc, data(w.Writer)) == accApp(accApp(old(select(ghost.acc, data(w.Writer))), valEnc(typeid("uint32"), (7 + tag) * 16777216 + len(p))), bid(p))
+
+//@ func (*rsyncwire.MultiplexWriter).Write
+//@   requires[C17] [frame-limit] len(p) <= 262144
+//@   modifies rsyncwire.CountingWriter.BytesWritten, ghost.acc
+
+//@ func (*rsyncwire.MultiplexReader).ReadMsg
+//@   modifies rsyncwire.CountingReader.BytesRead, ghost.frameTag, ghost.frameLen
+//@   ensures [frame-limit] err == nil ==> len(p) <= 262144
+//@   ensures[ghostdef] err == nil ==> ghost.frameTag == tag && ghost.frameLen == len(p)
+//@   at[C17] io.ReadFull: assert [header-decoding] len(arg1) == mod(header, 16777216) && tag == wrap8u(div(header, 16777216) - 7)
+
+// Read delivers a data frame whole (the caller's buffer is at least
+// maxMessageSize: obligation mux-buffer on bufio.NewReaderSize), yields
+// nothing for an info frame, and fails for an error frame or unknown tag.
 //@ func (*rsyncwire.MultiplexReader).Read
 //@   requires [buffer] len(p) >= 262144
-//@   modifies contents(p), rsyncwire.CountingReader.BytesRead, rsyncos.Env.logger
+//@   modifies contents(p), rsyncwire.CountingReader.BytesRead, rsyncos.Env.logger, rsyncwire.CountingWriter.BytesWritten, ghost.frameTag, ghost.frameLen
+//@   ensures[C17] [data-frame-delivered-whole] err == nil && ghost.frameTag == 0 ==> n == ghost.frameLen
+//@   ensures[C17] [info-frame-yields-nothing] ghost.frameTag == 2 ==> n == 0
+//@   ensures[C17] [error-frame-fails] ghost.frameTag == 1 ==> err != nil
+//@   ensures[C17] [unknown-tag-fails] ghost.frameTag != 0 && ghost.frameTag != 2 ==> err != nil
